@@ -38,9 +38,9 @@ def random_history(rng, nclients, nnames, steps):
         elif r < 0.62:
             a = ('ToBus', (rng.choice(live), rng.choice(['GetId', 'HelloAgain', 'NoSuchMethod', 'SignalToBus'] + sorted(bd.BUSCALLS))))
         elif r < 0.76:
-            a = ('AddMatch', (rng.choice(live), rng.choice(['R1', 'R2', 'R3', 'R4', 'R5', 'R6', 'R7'])))
+            a = ('AddMatch', (rng.choice(live), rng.choice(['R1', 'R2', 'R3', 'R4', 'R5', 'R6', 'R7', 'R8'])))
         elif r < 0.84:
-            a = ('RemoveMatch', (rng.choice(live), rng.choice(['R1', 'R2', 'R3', 'R4', 'R5', 'R6', 'R7'])))
+            a = ('RemoveMatch', (rng.choice(live), rng.choice(['R1', 'R2', 'R3', 'R4', 'R5', 'R6', 'R7', 'R8'])))
         else:
             a = ('Emit', (rng.choice(live), rng.choice(['S1', 'S2', 'S3'])))
         drv.apply(*a)
